@@ -118,16 +118,16 @@ def _traces(c, thorough):
 
 
 def _strict_trace_hits(c, tr, tag):
-    """Run the strict cfg on the recorded trace: the known pattern must be the ONLY thing it reports."""
+    """Run the strict cfg on the recorded trace and return the lines it reports with the known-pattern tag
+    (tags of the other property are not this check's business)."""
     res = vf.run_tlc(SPEC, "TraceChainClaims", "TraceChainClaims_%sstrict.cfg" % c.pid, c.scratch, workers=1,
                      env={"TRACE_FILE": tr}, timeout=3000, tag="TraceChainClaims-strict")
     if res.ok:
         return []
     errs = res.final_state.get("errs", "")
     hits = re.findall(r'<<(\d+), "(\w+)">>', errs)
-    bad = [h for h in hits if h[1] not in (tag, "C31K", "C32K")]
-    if bad:
-        raise vf.MachineryError("strict trace validation reports %s although the regular one accepted the trace" % bad)
+    if any(h[1] == c.pid for h in hits):
+        raise vf.MachineryError("strict trace validation reports %s although the regular one accepted the trace" % hits)
     return [int(h[0]) for h in hits if h[1] == tag]
 
 
